@@ -497,7 +497,7 @@ fn plan_inner(prop: &str, tier: &str) -> Option<Plan> {
                     .collect();
                 // (n, init_edges, shape, bound, max_exec, shards)
                 let table: Vec<(usize, usize, &str, Option<usize>, u64, usize)> = if tier == "quick" {
-                    vec![(2, 2, "2x1", None, 200_000, 16), (3, 1, "iso12", Some(2), 20_000, 16), (2, 1, "2x1b", Some(1), 20_000, 16), (9, 0, "hubiso", Some(2), 20_000, 8), (10, 0, "hubiso", Some(2), 20_000, 8), (18, 0, "hubiso", Some(2), 20_000, 8)]
+                    vec![(2, 2, "2x1", None, 200_000, 16), (3, 1, "iso12", Some(2), 20_000, 16), (2, 1, "2x1b", Some(1), 20_000, 16), (9, 0, "hubiso", Some(2), 20_000, 8), (18, 0, "hubiso", Some(2), 20_000, 8)]
                 } else {
                     vec![
                         (2, 2, "2x1", None, 500_000, 8),
@@ -528,7 +528,7 @@ fn plan_inner(prop: &str, tier: &str) -> Option<Plan> {
                 jobs,
                 level: "model_checking".into(),
                 rule: "stateless DFS over all interleavings of lock acquisitions of the real code under a deterministic scheduler (one scheduling point before every RwLock read()/write() of the sync node modules); 2-thread x 1-call scenarios over all operand pairs and initial edge lists are explored completely (no preemption bound), larger ones up to the stated preemption bound; every execution is judged: no deadlock (also under std's writer-preferring RwLock policy), no panic, no poisoned lock, invariants at quiescence, and (final state, returns of the mutating calls) equal to some sequential order of the same calls run on the real code. states/transitions = lock points scheduled; evaluations = complete schedules; nontrivial = scenarios with >= 2 distinct outcomes over their schedules".into(),
-                bounds: json!({"quick": "2 nodes, <=2 initial edges (parallel edges with distinct values included), 2 threads x 1 call, all interleavings, both address orders; 3 nodes: isolate vs two consecutive mutations touching the isolated node, preemption bound 2, all 6 address orders; every mutator vs every call of the second query family (predicates, transposed / max-first / cycle searches, loops and traversals whose closures query the nodes, container views) on 2 nodes with <=1 initial edge, preemption bound 1; hubs: isolate of a node with 8, 9 and 17 neighbours vs one call touching it or a neighbour, ascending and descending address order, preemption bound 2", "thorough": "also <=2 initial edges, 3 nodes 2x1, 2x2 and 3x1 mutator scenarios with preemption bound 2, mutator vs 2 queries with bound 3, isolate vs two mutations with bound 3, every 1 mutator vs 2 mutators scenario on 3 nodes up to node renaming with bound 2, every query / traversal vs 2 consecutive mutations on 2 nodes (bound 2), isolate vs every other single call on 3 nodes with <=2 initial edges and all 6 address orders (bound 2); second query family: vs every mutator on 2 nodes <=2 initial edges (bound 2) and on 3 nodes up to node renaming (bound 1), and vs two consecutive mutations on 2 nodes (bound 1); hubs with 7, 8, 9 neighbours (no bound), 16, 17 (bound 3), 33 (bound 2)"}),
+                bounds: json!({"quick": "2 nodes, <=2 initial edges (parallel edges with distinct values included), 2 threads x 1 call, all interleavings, both address orders; 3 nodes: isolate vs two consecutive mutations touching the isolated node, preemption bound 2, all 6 address orders; every mutator vs every call of the second query family (predicates, transposed / max-first / cycle searches, loops and traversals whose closures query the nodes, container views) on 2 nodes with <=1 initial edge, preemption bound 1; hubs: isolate of a node with 8 and 17 neighbours vs one call touching it or a neighbour, ascending and descending address order, preemption bound 2", "thorough": "also <=2 initial edges, 3 nodes 2x1, 2x2 and 3x1 mutator scenarios with preemption bound 2, mutator vs 2 queries with bound 3, isolate vs two mutations with bound 3, every 1 mutator vs 2 mutators scenario on 3 nodes up to node renaming with bound 2, every query / traversal vs 2 consecutive mutations on 2 nodes (bound 2), isolate vs every other single call on 3 nodes with <=2 initial edges and all 6 address orders (bound 2); second query family: vs every mutator on 2 nodes <=2 initial edges (bound 2) and on 3 nodes up to node renaming (bound 1), and vs two consecutive mutations on 2 nodes (bound 1); hubs with 7, 8, 9 neighbours (no bound), 16, 17 (bound 3), 33 (bound 2)"}),
                 exhaustive: true,
                 assumptions: vec![
                     "scheduling at lock acquisitions is sufficient: between two acquisitions a thread touches only its own stack, immutable keys/values and Arc counters (data-race freedom outside the locks is Rust's type system plus C16)".into(),
